@@ -91,12 +91,18 @@ CLAIMED = {
             "Static decision of the coverage / accumulation clauses of C15 (DESIGN section 3): that the system aggregates ARE sums over the individual bodies -- each of the seven calculators loops over every mobilized body but Ground exactly once, adds each body's contribution to zero-initialised accumulators on every iteration path, takes the contribution from getMobilizedBody(b) of the loop variable, and normalises a mass-weighted average by the very mass it summed (under mass != 0); "
             "kinetic energy covers every node of every non-Ground level; composite-body inertias are swept outermost level first over all nodes, each node adding every child's composite inertia shifted by that same child's phi. "
             "The per-body formulas (parallel-axis shifts, re-expression, station velocities, momentum about the mass centre) are numerical and NOT decided."),
+    "C01": ("COLUMNS (calcM / calcMInv built column by column as multiplyByM / multiplyByMInv of a unit vector: zero start, set, apply, reset on every path, column index, full range) and SWEEP (pass order, level direction, node coverage of the O(n) mass-matrix operators and the articulated-body inertia recursion)",
+            "Static decision of the agreement-of-routes clause of C01 (DESIGN section 3): the explicit mass matrix and its explicit inverse ARE the O(n) operators applied to the unit vectors, so 'explicit matrix' and 'operator' cannot disagree; and each operator visits the tree in the order its recursion needs (inward pass from the outermost level to 0, outward pass from 0 up, every node, pass 1 before pass 2). "
+            "That the per-node recursions compute M*v and M^-1*v, symmetry, positive definiteness and KE = u'Mu/2 are numerical and NOT decided."),
+    "C02": ("SWEEP (forward dynamics: Pass1 inward then Pass2 outward; inverse dynamics: accelerations outward then forces inward; level direction, node coverage) and SCATTER (prescribed / known-zero udots written over their whole lists before the inward pass)",
+            "Static decision of the sweep-discipline clause of C02 only (DESIGN section 3): the forward-dynamics and inverse-dynamics tree operators visit every node of every level in the direction each pass needs, in pass order, and forward dynamics scatters every prescribed and known-zero udot before sweeping. "
+            "That the two recursions are inverses of each other (M*udot + f_inertial = f_applied, zero residuals, J'*F, Coriolis terms) is numerical and NOT decided."),
+    "C04": ("COLUMNS (the six explicit system / station / frame Jacobian builders as unit-vector applications of multiplyBySystemJacobian[Transpose]) and SWEEP (Jacobian operator outward, its transpose inward, body accelerations outward)",
+            "Static decision of the agreement-of-routes clause of C04 (DESIGN section 3): every explicit Jacobian is, slot by slot, the O(n) operator applied to a unit vector / unit spatial force (zero start, set, apply, reset on every path, same-index slot, all indices), so explicit matrices and operators are one route; the operator sweeps outward and its transpose inward, each over every node. "
+            "That J*u equals the reported velocities, the bias terms and the adjoint identity as an equality of values are numerical and NOT decided."),
 }
 NA = {
- "C01": "numerical identity between O(n) recursions; no clause is visible in the shape of the code",
- "C02": "forward/inverse dynamics agreement is arithmetic of the recursions, not their shape",
  "C03": "derivative relation between numeric routines; needs symbolic differentiation (other family)",
- "C04": "adjointness/bias identities are numerical",
  "C05": "needs an independent numerical reference of each documented mobilizer formula",
  "C06": "metamorphic equality of numerical results; the only shape clause is too thin to claim",
  "C11": "conservation along trajectories is a global numerical consequence",
